@@ -19,7 +19,7 @@ META = {
         "quick": "constructor: every defined identity + 14 undefined/reserved numbers + 4076 with free sub-type, payload lengths 0..24, all bits symbolic, "
                  "each counter explored for values 0,1,2 and one solver-chosen larger value, <= 600 paths per (identity,length); parse(): buffers 0..16 bytes, "
                  "validate a free integer, 8 representative message numbers; reader: all streams of length 0..8 in modes 0/1/2, <=1 injected fault at <=5",
-        "thorough": "payload lengths 0..48 (MSM types 0..36; mask shapes above 10 cells 0..28), buffers 0..32, streams 0..10, <=2 faults at <=7"},
+        "thorough": "payload lengths 0..48 (MSM types 0..32; mask shapes above 10 cells 0..28), buffers 0..32, streams 0..10, <=2 faults at <=7"},
     "outside": "payloads longer than the bound for arbitrary bytes (structure-aware long inputs are covered by C03/C06 directed runs); counters above the explored values",
     "assumptions": ["stream double contract: read(n) returns at most n bytes; empty result only at end of data or injected fault"],
 }
@@ -30,8 +30,8 @@ UNDEF = (0, 1, 999, 1000, 1018, 1028, 1070, 1078, 1138, 1229, 1231, 4072, 4075, 
 def jobs(tier, seed):
     maxl = 24 if tier == 'quick' else 48
     ids = structs.all_identities()
-    # MSM payloads with free masks: the number of mask shapes grows with the length; thorough stops at 36 bytes for them
-    out = [('ctor', ident, maxl if tier == 'quick' or structs.kind_of(ident) != 'msm' else 36) for ident in ids]
+    # MSM payloads with free masks: the number of mask shapes grows with the length; thorough stops at 32 bytes for them
+    out = [('ctor', ident, maxl if tier == 'quick' or structs.kind_of(ident) != 'msm' else 32) for ident in ids]
     out += [('ctor_undef', n, maxl) for n in UNDEF]
     out += [('ctor_4076', 0, 8 if tier == 'quick' else 16), ('ctor_short', 0, 2)]
     maxb = 16 if tier == 'quick' else 32
